@@ -541,3 +541,105 @@ def npshim_reshape_flat(w, arr):
             raise T.OutOfReach('cell vector read with a non-cell index')
         return snap(l.idx)
     return SymNDArray.from_fn((n,), fn, 'real', origin='input:rhs')
+
+
+# ------------------------------------------------------------------------------------------------
+#  solver-level corollaries of C06, stated on the system the real solvePDE hands to the solver
+
+class UniformSteadyState(Ob):
+    """C06 'Therefore ...': with a transient term, upwind AND central advection in a velocity field whose discrete
+    divergence vanishes in the cell, diffusion, and boundaries that match the uniform value c (Dirichlet value c on the
+    lower faces, default no-flux on the upper faces), the uniform field phi = c (ghost cells included) satisfies EVERY
+    row of the system the real solvePDE assembles from a uniform old field -- for every dt, alpha, spacing, D, u.
+    With non-singularity (A4, Lean unique_solution) the solver returns it: a uniform field is a steady state."""
+    name = 'solvePDE/uniform_field_is_steady_state'
+    props = ('C06',)
+    grids = tuple(g for g in ALL if GRIDS[g]['nd'] < 3)
+    velocity_kind = None          # 3-D variant below: every velocity component positive (keeps the whole-row query small)
+
+    def region(self, w):
+        return [c for a in range(w.nd) for c in (I(w.P[a]) >= 0, I(w.P[a]) <= w.N[a] + 1)]
+
+    def points(self, w):
+        import itertools
+        return list(itertools.product(*[range(0, n + 2) for n in w.N]))
+
+    def setup(self, w):
+        c = w.scalar('cval')
+        BC = bnd.BoundaryConditions(w.mesh)
+        for a in range(w.nd):
+            getattr(BC, SIDES[a][0]).fixedValue(c)
+        phi = cel.CellVariable(w.mesh, c, BC)
+        D = w.facevar('D')
+        u = w.facevar('u', self.velocity_kind)
+        dt = w.scalar('dt', 'pos')
+        alpha = w.scalar('alpha', 'pos')
+        Mt, Rt = src_.transientTerm(phi, dt, alpha)
+        rec = {}
+
+        def solver(M, RHS):
+            rec['M'], rec['RHS'] = M, RHS
+            if w.symbolic:
+                return T.SPSOLVE(M, RHS)
+            from scipy.sparse.linalg import spsolve
+            return spsolve(M, RHS)
+        terms = [(Mt, Rt), adv.convectionUpwindTerm(u), adv.convectionTerm(u), -dif.diffusionTerm(D)]
+        pde.solvePDE(phi, terms, externalsolver=solver)
+        div = cal.divergenceTerm(u)
+        const = w.np.ones(w.ghost_shape()) * c
+        return dict(rec=rec, div=div, const=const, c=c)
+
+    def claims(self, w, S, P, part=None):
+        nb = 0
+        for a in range(w.nd):
+            onb = CTX.decide((I(P[a]) == 0) | (I(P[a]) == w.N[a] + 1)) if w.symbolic else (P[a] in (0, w.N[a] + 1))
+            nb += 1 if onb else 0
+        if nb > 1:
+            return []
+        rec = S['rec']
+        resid = w.apply(rec['M'], S['const'], P) - w.vec(rec['RHS'], P)
+        if nb == 1:
+            return [('uniform_field_satisfies_boundary_row', w.eq(resid, 0))]
+        # both advection terms are in the list: each contributes c*div(u); the hypothesis is div(u)[P] == 0
+        dv = w.vec(S['div'], P)
+        if w.symbolic:
+            return [('uniform_field_satisfies_interior_row_when_div_u_is_zero', (R.of(dv) == 0).implies(R.of(resid) == 0)),
+                    ('interior_row_residual_is_2c_div_u', w.eq(resid, 2 * S['c'] * dv))]
+        w.scale = 1e3
+        return [('interior_row_residual_is_2c_div_u', w.eq(resid, 2 * S['c'] * dv))]
+
+
+class UniformSteadyState3D(UniformSteadyState):
+    name = 'solvePDE/uniform_field_is_steady_state(3-D, positive velocity components)'
+    # SphericalGrid3D / CylindricalGrid3D: the whole-row query (three axes, r^2 sin(theta) factors) exceeds the solver
+    # budget; there the statement follows modularly from the per-axis const_field clauses and the solvePDE row identity
+    grids = ('Grid3D',)
+    velocity_kind = 'pos'
+
+
+class LocalSourcesSolve(Ob):
+    """C06 last clause: solvePDE(phi, [linearSourceTerm(beta), constantSourceTerm(gamma)]) assembles, in every interior
+    cell of every grid, exactly the equation beta_P * x_P = gamma_P (no coupling to any other cell)."""
+    name = 'solvePDE/beta_phi_equals_gamma_is_cell_local'
+    props = ('C06',)
+
+    def setup(self, w):
+        phi, _ = make_cellvar(w, 'phi0')
+        beta, _ = make_cellvar(w, 'beta', bc=False)
+        gam, _ = make_cellvar(w, 'gamma', bc=False)
+        rec = {}
+
+        def solver(M, RHS):
+            rec['M'], rec['RHS'] = M, RHS
+            if w.symbolic:
+                return T.SPSOLVE(M, RHS)
+            from scipy.sparse.linalg import spsolve
+            return spsolve(M, RHS)
+        pde.solvePDE(phi, [src_.linearSourceTerm(beta), src_.constantSourceTerm(gam)], externalsolver=solver)
+        return dict(rec=rec, beta=beta, gam=gam, psi=w.rawcell('psi')._value)
+
+    def claims(self, w, S, P, part=None):
+        rec = S['rec']
+        lhs = w.apply(rec['M'], S['psi'], P) - w.vec(rec['RHS'], P)
+        want = w.at(S['beta']._value, P) * w.at(S['psi'], P) - w.at(S['gam']._value, P)
+        return [('interior_equation_is_beta_x_equals_gamma', w.eq(lhs, want))]
